@@ -177,6 +177,8 @@ func (iter *ChanIter) MarshalJSON() ([]byte, error) {
 }
 
 func (iter *ChanIter) Next(ctx context.Context) (Object, bool) {
+	verifhook.Yield("chan.next")
+	defer verifhook.Yield("chan.next.done")
 	select {
 	case <-ctx.Done():
 		iter.current = nil
